@@ -5,5 +5,11 @@ TEXTS = {
   "note": "Trusted: Lean kernel (+propext, Classical.choice, Quot.sound), tools/extract.py for the constants, the harness sweep that equates model and implementation on all ticks / all boundaries / sampled interior prices; the structure of tick_index_from_sqrt_price (not just its constants) is modelled by hand, so between boundaries the tie is the sampled family `tir` plus the theorem.",
   "technique": "Lean 4 proof: kernel enumeration over all ticks + monotonicity lemma; exhaustive differential correspondence",
  },
+ "C02": {
+  "text": "Machine-checked proof (Lean 4) about the model of compute_swap and its token-math callees, for ALL u64 amounts, u128 liquidities, fee rates <= 100000 and in-bounds ordered price pairs, both modes and directions: price moves only towards and never past the target (step_direction); amount_in is the exact ceiling and amount_out the exact floor (or the smaller request) of the concentrated-liquidity amount for the move actually made (step_in_exact, step_out_exact); an exact-in step never exceeds the net budget and one price unit further would (step_in_le_budget, step_tight_in); an exact-out step one unit nearer would under-deliver (step_tight_out); stopping short exhausts the budget / request (step_exhausts); the fee formula (step_fee). The model is tied to the code by differential testing of compute_swap and each component against the real crate, and every clause is also checked on the implementation by an exact-rational oracle.",
+  "design_ref": "DESIGN.md 5.2",
+  "note": "Trusted: Lean kernel (+3 standard axioms), the hand-written model of swap_math.rs/token_math.rs/bit_math.rs validated by sampled correspondence (not exhaustive), U256Muldiv::div modelled as Nat division (validated by family d256 against num-bigint).",
+  "technique": "Lean 4 proof over Nat of rounding/tightness lemmas; differential correspondence + exact-arithmetic oracle",
+ },
 }
 PENDING = {}
